@@ -269,7 +269,7 @@ def generate(rng, tier):
     EXTRA['enumerated_valid_calls'] = len(allcalls)
     EXTRA['signatures'] = len(sigs)
     # every stack of <= 3 decorators on a few calls each (valid, raising, invalid)
-    per_stack = 3 if q else 12
+    per_stack = 3 if q else 30
     for ds in all_stacks(rng):
         for j in range(per_stack):
             sig, args, kw = rng.choice(allcalls)
@@ -308,9 +308,9 @@ def generate(rng, tier):
     for _ in range(100 if q else 2000):
         st = [rng.choice(CLASSES[:3]) for _ in range(rng.choice([5, 6]))]
         yield dict(tag='construct len=5-6', lines=['(deco mk %s)' % decos_enc([(c, deco_params(rng, c)) for c in st])])
-    for _ in range(400 if q else 8000):
+    for _ in range(400 if q else 15000):
         yield gen_cache(rng)
-    for _ in range(100 if q else 2000):
+    for _ in range(100 if q else 4000):
         yield gen_cache(rng, raising=True)
 
 
